@@ -46,7 +46,8 @@ ClimXdyn == MkMI(2, st.dims, <<TRUE, FALSE>>, [i \in 1..Len(st.sig) |-> <<st.sig
 Laws ==
   /\ (st.kind = "avg" => (Closed(GroupOf(st.group)) => AvgCommutes(GroupOf(st.group), st.mid, AvgX)))
   /\ (st.kind = "clim" => /\ ClimateLaws(ClimXdyn, st.T)
-                          /\ (CanonOrder(ClimXdyn) => ClimateCommutes(st.mid, ClimXdyn, st.T)))
+                          /\ (CanonOrder(ClimXdyn) => ClimateCommutes(st.mid, ClimXdyn, st.T))
+                          /\ ((CanonOrder(ClimX) /\ st.consts # <<>>) => ClimateCommutesC(st.mid, ClimX, st.T, st.consts)))
 
 Snap(m) == [d |-> m.d, dims |-> m.dims, torus |-> m.torus, order |-> m.order,
             leads |-> [i \in 1..Len(m.order) |-> m.blks[i].lead], vals |-> [i \in 1..Len(m.order) |-> m.blks[i].val]]
@@ -60,5 +61,7 @@ Emit ==
         PrintT(<<"CASE", ToJson([kind |-> "clim", T |-> st.T, mid |-> st.mid, consts |-> st.consts, sig |-> st.sig,
                                  x |-> Snap(ClimX), to1d |-> Snap(To1d(ClimX, st.T, st.consts)),
                                  xdyn |-> Snap(ClimXdyn), canon |-> CanonOrder(ClimXdyn),
-                                 num |-> IF CanonOrder(ClimXdyn) THEN Snap(ClimateNum(st.mid, ClimXdyn, st.T)) ELSE Snap(ClimXdyn)])>>))
+                                 num |-> IF CanonOrder(ClimXdyn) THEN Snap(ClimateNum(st.mid, ClimXdyn, st.T)) ELSE Snap(ClimXdyn),
+                                 rowsd |-> LET y == To1d(ClimX, st.T, st.consts) IN [i \in 1..Len(y.order) |-> RowsD(ClimX, y.order[i], st.T, st.consts)],
+                                 numc |-> IF CanonOrder(ClimX) /\ st.consts # <<>> THEN Snap(ClimateNumC(st.mid, ClimX, st.T, st.consts)) ELSE Snap(ClimXdyn)])>>))
 =============================================================================
